@@ -42,5 +42,6 @@ def units(tier):
         add("D=3 cancel=1 cancel2=0 sym shields", D=3, cancel=1, cancel2=0, J=1, post0=True)
         add("D=3 cancel=2 cancel2=1 stubborn=2", D=3, cancel=2, cancel2=1, stubborn=2, shields=(False, False, False), J=1)
         add("D=2 cancel=1 stubborn=1 child eager", D=2, cancel=1, stubborn=1, shields=(False, False), in_child=True, eager=True)
-        add("D=2 cancel=1 cancel2=0 T=2", D=2, cancel=1, cancel2=0, T=2)
+        add("D=2 cancel=1 cancel2=0 T=2", D=2, cancel=1, cancel2=0, T=2, J=1, post0=True, shields=(False, False))
+        add("D=2 cancel=1 cancel2=0 T=2 shielded inner", D=2, cancel=1, cancel2=0, T=2, J=1, post0=True, shields=(False, True))
     return us
